@@ -402,6 +402,9 @@ func (e *Exec) prepareCall(fr *frame, call *ssa.CallCommon) (fn Value, args []Va
 			desc := valString(recv.v)
 			return hostFn(func(e *Exec, fr *frame, a []Value) Value { return "error(" + desc + ")" }), nil
 		}
+		if tag, isTag := recv.t.(*protoTag); isTag {
+			return protoTagMethod(tag, recv.v, call.Method.Name()), nil
+		}
 		f := e.lookupMethod(recv.t, call.Method)
 		if f == nil {
 			e.unsupported("no method %s for dynamic type %s", call.Method, recv.t)
